@@ -196,14 +196,40 @@ static void A_t3(void *arg)
         vbi_channel_switched(V, 0);
 }
 
+/* LINEARIZATION POINT ORACLE (scheduled runs only).  Under the baton the harness knows the
+ * decoder's state at the instant T2 acquires cc.mutex: no other thread is inside a critical
+ * section of that mutex, so the page displayed on channel 1 at that instant - read here
+ * from the decoder's own memory AFTER the acquisition - is the one and only page a correct
+ * fetch may return.  Stronger than set membership: a fetch that picked the buffer before
+ * taking the lock, or copies outside the lock, returns a different page under the
+ * schedules that flip or rewrite the buffers in between. */
+static uint64_t lin_expect[16]; static int nlin;
+static void A_on_op(int tid, char op, void *m)
+{
+        if (tid == 1 && op == 'A' && V && m == (void *) &V->cc.mutex && nlin < 16) {
+                cc_channel *ch = &V->cc.channel[0];
+                lin_expect[nlin++] = page_hash(ch->pg + (ch->hidden ^ 1));
+        }
+}
+
 static void A_body(void *arg)
 {
         (void) arg;
         sc_thread_fn fns[3] = { A_t1, A_t2, A_t3 };
         V = new_decoder(); cur_obs = NULL;
-        trips = 0; nfetched = 0; t2_fetch_failed = 0; handler_fetch_failed = 0;
+        trips = 0; nfetched = 0; t2_fetch_failed = 0; handler_fetch_failed = 0; nlin = 0;
+        sc_on_op = A_on_op;
         sc_run(3, fns, NULL, 20000);
+        sc_on_op = NULL;
         mc_count("transitions", sc_points());
+        if (nlin != nfetched)
+                mc_violation("A: vbi_fetch_cc_page does not take cc.mutex exactly once per fetch", "%d fetches, %d acquisitions by the fetching thread; schedule %s | %s", nfetched, nlin, mc_choices_str(), sc_trace());
+        else for (int j = 0; j < nfetched; j++)
+                if (fetched[j] != lin_expect[j]) {
+                        mc_violation("A: fetched caption page differs from the page displayed when the fetch acquired cc.mutex (torn or stale snapshot)",
+                                     "variant %d fetch #%d; schedule %s | %s", VARIANT, j, mc_choices_str(), sc_trace());
+                        break;
+                }
         /* oracle */
         if (t2_fetch_failed || handler_fetch_failed)
                 mc_violation("A: vbi_fetch_cc_page failed", "schedule %s", mc_choices_str());
